@@ -43,8 +43,8 @@ type SensCase struct {
 var tsDeltas = [][2]int64{{0, 1}, {0, -1}, {0, 1000}, {0, 1_000_000}, {1, 0}, {-1, 0}, {3600, 0}, {1 << 31, 0}, {1 << 32, 0},
 	{4, 294_967_296}, {9_223_372_036, 854_775_808}, {18_446_744_073, 709_551_616}, {-18_446_744_073, -709_551_616}}
 
-var blockFields = []string{"parent", "proposer", "view", "batch", "ts", "qc.hash", "qc.view", "qc.sig"}
-var timeoutFields = []string{"id", "view", "qc.hash", "qc.view", "qc.sig", "qc.presence"}
+var blockFields = []string{"parent", "proposer", "view", "batch", "batch", "ts", "ts", "qc.hash", "qc.view", "qc.sig", "qc.sig", "qc.sig", "qc.sig"}
+var timeoutFields = []string{"id", "view", "qc.hash", "qc.view", "qc.sig", "qc.sig", "qc.sig", "qc.sig", "qc.presence"}
 var qcFields = []string{"qc.hash", "qc.view"}
 
 func nz(m uint64) uint64 {
@@ -360,5 +360,77 @@ func genSens(rt *rapid.T) SensCase {
 
 // TestC12Sensitivity: one-component changes must change the hash / the bytes-to-sign.
 func TestC12Sensitivity(t *testing.T) {
-	common.Check(t, id, "TestC12Sensitivity", 3000, 100000, genSens, sensProp)
+	common.Check(t, id, "TestC12Sensitivity", 4000, 150000, genSens, sensProp)
+}
+
+// AggBindCase: an honest aggregate certificate of n timeout messages in which the highest certificate (reported by
+// replica Victim) gets its signers re-attributed by whoever assembles the aggregate.
+type AggBindCase struct {
+	Scheme, N, Victim int
+}
+
+// TestC12AggEntryBinding: the consequence of "changing the QC of a timeout message changes its bytes-to-sign" at the
+// receiver: an aggregate certificate in which one reported certificate was altered (same signature bytes attributed to
+// other replicas) must not verify under the unchanged aggregate signature; otherwise the assembler can hide the highest
+// certificate from the replicas.
+func TestC12AggEntryBinding(t *testing.T) {
+	common.Exhaustive(t, id, "TestC12AggEntryBinding", func(yield func(AggBindCase) bool) {
+		for scheme := 0; scheme < 3; scheme++ {
+			for _, n := range []int{4, 7} {
+				for v := 0; v < n; v++ {
+					if !yield(AggBindCase{scheme, n, v}) {
+						return
+					}
+				}
+			}
+		}
+	}, func(c AggBindCase) common.Result {
+		w := getWorld(c.Scheme, c.N, true)
+		all := SigSpec{}
+		for i := 0; i < w.n; i++ {
+			all.Signers = append(all.Signers, i)
+		}
+		b2 := w.blocks[2]
+		high := hotstuff.NewQuorumCert(w.sign(all, b2.ToBytes()), b2.View(), b2.Hash())
+		low := b2.QuorumCert()
+		victim := w.ms[mod(c.Victim, w.n)].ID
+		qcs := map[hotstuff.ID]hotstuff.QuorumCert{}
+		var sigs []hotstuff.QuorumSignature
+		for _, m := range w.ms {
+			qcs[m.ID] = low
+			if m.ID == victim {
+				qcs[m.ID] = high
+			}
+			tm := hotstuff.TimeoutMsg{ID: m.ID, View: 5, SyncInfo: hotstuff.NewSyncInfoWith(qcs[m.ID])}
+			s, err := m.Base.Sign(tm.ToBytes())
+			if err != nil {
+				return common.Fail("harness", "sign: %v", err)
+			}
+			sigs = append(sigs, s)
+		}
+		agg, err := w.ms[0].Base.Combine(sigs...)
+		if err != nil {
+			return common.Fail("harness", "combine: %v", err)
+		}
+		recv := w.ms[mod(c.Victim+1, w.n)]
+		hq, err := recv.Auth.VerifyAggregateQC(hotstuff.NewAggregateQC(qcs, agg, 5))
+		if err != nil || hq.View() != high.View() {
+			return common.Fail("aggqc-honest", "%s n=%d: the honest aggregate certificate is refused or yields view %d: %v", w.scheme, w.n, hq.View(), err)
+		}
+		bad, op := w.changeSig(SensCase{SigOp: 3, Bit: c.Victim}, high.Signature(), QCSpec{Target: 2})
+		if op != "relabel" {
+			return common.Fail("harness", "relabel not applicable")
+		}
+		qcs2 := map[hotstuff.ID]hotstuff.QuorumCert{}
+		for k, v := range qcs {
+			qcs2[k] = v
+		}
+		qcs2[victim] = hotstuff.NewQuorumCert(bad, high.View(), high.BlockHash())
+		hq, err = recv.Auth.VerifyAggregateQC(hotstuff.NewAggregateQC(qcs2, agg, 5))
+		if err == nil {
+			return common.Fail("sens:aggqc.entry-relabel", "%s n=%d: replica %d's reported certificate (view %d) was re-attributed to other signers, yet the aggregate "+
+				"signature still verifies and the receiver takes view %d as the highest certificate", w.scheme, w.n, victim, high.View(), hq.View())
+		}
+		return common.OK(true, "", "aggbind:"+w.scheme)
+	})
 }
